@@ -403,7 +403,10 @@ impl Gen {
         let k = self.rng.below(100);
         if session_wd && k < 14 { return Op::Withdraw(*self.rng.pick(muis), if self.rng.chance(1, 2) { None } else { Some(self.rng.below(4) as usize) }); }
         if session_wd && k < 20 { let n = self.rng.range(1, muis.len() as u64) as usize; return Op::WithdrawBulk(muis[..n].to_vec()); }
-        if k < 60 { Op::Single(self.pl(muis, npfx)) } else { let n = self.rng.range(0, 5); Op::Bulk((0..n).map(|_| self.pl(muis, npfx)).collect()) }
+        // one Bulk in eight is large (sizes around 16 / 20 / 32 / 64, where a batch may be chunked, sorted or handled by
+        // another algorithm) and, having few prefixes to draw from, writes the same (prefix, ingress) several times:
+        // the last write of the Bulk is the one that must stand
+        if k < 60 { Op::Single(self.pl(muis, npfx)) } else { let n = if self.rng.chance(1, 8) { *self.rng.pick(&[15u64, 16, 17, 20, 21, 24, 31, 32, 33, 49, 64, 65]) } else { self.rng.range(0, 5) }; Op::Bulk((0..n).map(|_| self.pl(muis, npfx)).collect()) }
     }
     /// `racy`: how many writers may issue session-wide withdrawals.
     fn progs(&mut self, t: usize, racy: usize) -> Vec<Vec<Op>> {
